@@ -123,7 +123,7 @@ def parents(f):
     return out
 
 
-def build(tree, f, label, *, kind=None, data_id=None):
+def build(tree, f, label, *, kind=None, data_id=None, node_id=None):
     """Populate `tree` with the shape f. label(i) -> data for pre-order index i.
     kind(i) -> kind (typed trees), data_id(i) -> explicit id or None.
     Returns the list of nodes in pre-order."""
@@ -139,6 +139,10 @@ def build(tree, f, label, *, kind=None, data_id=None):
                 d = data_id(i)
                 if d is not None:
                     kw["data_id"] = d
+            if node_id is not None:
+                d = node_id(i)
+                if d is not None:
+                    kw["node_id"] = d
             n = parent.add(label(i), **kw)
             nodes.append(n)
             rec(n, k)
